@@ -4,12 +4,15 @@ sys.path.insert(0, os.path.dirname(os.path.abspath(__file__)))
 import vcheck
 
 with vcheck.Lock():
-    rc, out = vcheck.build_harness()
-    print(out[-3000:])
-    if rc != 0:
-        sys.exit("harness build failed")
-    rc, out = vcheck.gen_tables()
-    print(out)
+    import glob, json
+    for cp in sorted(glob.glob(os.path.join(vcheck.ROOT, "props", "C*.json"))):
+        cfg = json.load(open(cp))
+        rc, out = vcheck.build_harness(cfg["id"], cfg)
+        print(cfg["id"], "harness build rc=%d" % rc, out[-2000:])
+        if rc != 0:
+            sys.exit("harness build failed for " + cfg["id"])
+        rc, out = vcheck.gen_tables(cfg["id"])
+        print(out)
     vcheck.refresh_coq_project()
     rc, out = vcheck.sh(["make", "-j%d" % vcheck.NCPU, "-k"], cwd=vcheck.COQ, timeout=7200)
     print(out[-6000:])
